@@ -381,6 +381,7 @@ theorem step_F (f : Nat) (hS : PS f) : PF (f + 1) := by
   | arr t es _ _ _ => simp [asType, sub, eqv] at hsub
   | tup es _ => simp [asType, sub, eqv] at hsub
   | cell loc ty _ _ => simp [asType, sub, eqv] at hsub
+  | struct fs _ _ => simp [asType, sub, eqv] at hsub
 
 /-! ### loops -/
 
@@ -486,6 +487,28 @@ theorem step_Fo (f : Nat) (hF : PF f) (hB : PB f) (hFo : PFo f) : PFo (f + 1) :=
     · simp only [Bool.false_eq_true, if_false]; exact outP_pure _ _ _ _ _ _ hst vt_unit
     · simp only [if_true]; exact hFo lp ret S g env x itv body .bool t T σ2 henv hg hr hst hitv hb wt ht
 
+theorem step_Fd (f : Nat) (hE : PE f) (hFd : PFd f) : PFd (f + 1) := by
+  intro lp ret S g env fs fts σ henv hg hr hst ht
+  cases fs with
+  | nil =>
+    simp only [tySFields] at ht; cases ht
+    simp only [evalFields]
+    exact outP_pure _ _ _ _ _ _ hst (by simp [Rel])
+  | cons q es =>
+    obtain ⟨k, e⟩ := q
+    simp only [tySFields] at ht
+    obtain ⟨t, hte, h2⟩ := bind_ok ht
+    obtain ⟨ts, hts, h3⟩ := bind_ok h2
+    cases h3
+    simp only [evalFields]
+    apply outP_bind lp ret S (fun S' v => VT S' t v) _ _ _ σ (hE lp ret S g env e t σ henv hg hr hst hte)
+    intro v σ1 S hle hst _ hv
+    replace henv := envOk_mono hle henv
+    apply outP_bind lp ret S (fun S' vs => Rel S' ts vs) _ _ _ σ1 (hFd lp ret S g env es ts σ1 henv hg hr hst hts)
+    intro vs σ2 S hle hst _ hvs
+    replace hv := vt_mono hle hv
+    exact outP_pure _ _ _ _ _ _ hst (by simp only [Rel]; exact ⟨trivial, hv, hvs⟩)
+
 theorem step_Pull (f : Nat) (hF : PF f) : PPull (f + 1) := by
   intro lp ret S it t σ hst hit wt
   simp only [pull]
@@ -520,11 +543,11 @@ theorem step_Col (f : Nat) (hP : PPull f) (hCol : PCol f) : PCol (f + 1) := by
       · exact hacc2 v hv)
 
 /-- everything at once, for every amount of fuel -/
-theorem all_f : ∀ f : Nat, PE f ∧ PL f ∧ PO f ∧ PS f ∧ PSt f ∧ PV f ∧ PA f ∧ PC f ∧ PF f ∧ PB f ∧ PLp f ∧ PW f ∧ PWS f ∧ PFo f ∧ PPull f ∧ PCol f := by
+theorem all_f : ∀ f : Nat, PE f ∧ PL f ∧ PO f ∧ PS f ∧ PSt f ∧ PV f ∧ PA f ∧ PC f ∧ PF f ∧ PB f ∧ PLp f ∧ PW f ∧ PWS f ∧ PFo f ∧ PPull f ∧ PCol f ∧ PFd f := by
   intro f
   induction f with
   | zero =>
-    refine ⟨?_, ?_, ?_, ?_, ?_, ?_, ?_, ?_, ?_, ?_, ?_, ?_, ?_, ?_, ?_, ?_⟩
+    refine ⟨?_, ?_, ?_, ?_, ?_, ?_, ?_, ?_, ?_, ?_, ?_, ?_, ?_, ?_, ?_, ?_, ?_⟩
     · intro lp ret S g env e T σ _ _ _ _ _; simp [eval, throwS, OutP, okSig]
     · intro lp ret S g env es Ts σ _ _ _ _ _; simp [evalList, throwS, OutP, okSig]
     · intro lp ret S g env o ot σ _ _ _ _ _; simp [evalOpt, throwS, OutP, okSig]
@@ -541,10 +564,11 @@ theorem all_f : ∀ f : Nat, PE f ∧ PL f ∧ PO f ∧ PS f ∧ PSt f ∧ PV f 
     · intro lp ret S g env x itv body b t T σ _ _ _ _ _ _ _ _; simp [forGo, throwS, OutP, okSig]
     · intro lp ret S it t σ _ _ _; simp [pull, throwS, OutP, okSig]
     · intro lp ret S it acc t σ _ _ _ _; simp [collectGo, throwS, OutP, okSig]
+    · intro lp ret S g env fs fts σ _ _ _ _ _; simp [evalFields, throwS, OutP, okSig]
   | succ f ih =>
-    obtain ⟨hE, hL, hO, hS, hSt, hV, hA, hC, hF, hB, hLp, hW, hWS, hFo, hPull, hCol⟩ := ih
-    exact ⟨step_E f hE hL hS hA hO hF hLp hW hWS hFo hCol, step_L f hE hL, step_O f hE, step_S f hSt hS, step_St f hE hV, step_V f hE,
-      step_A f hE hC hA, step_C f hE hC, step_F f hS, step_B f hE, step_Lp f hB hLp, step_W f hE hB hW, step_WS f hE hB hWS, step_Fo f hF hB hFo, step_Pull f hF, step_Col f hPull hCol⟩
+    obtain ⟨hE, hL, hO, hS, hSt, hV, hA, hC, hF, hB, hLp, hW, hWS, hFo, hPull, hCol, hFd⟩ := ih
+    exact ⟨step_E f hE hL hS hA hO hF hLp hW hWS hFo hCol hFd, step_L f hE hL, step_O f hE, step_S f hSt hS, step_St f hE hV, step_V f hE,
+      step_A f hE hC hA, step_C f hE hC, step_F f hS, step_B f hE, step_Lp f hB hLp, step_W f hE hB hW, step_WS f hE hB hWS, step_Fo f hF hB hFo, step_Pull f hF, step_Col f hPull hCol, step_Fd f hE hFd⟩
 
 /-- **soundness and progress with functions, mutable cells and loops**: for an expression the checker model types, the
     reference evaluator - with any fuel, from any store `σ` that respects a store typing `S`, in any environment whose
